@@ -138,6 +138,12 @@ func runC08(c *Ctx) {
 	c.Rule("C08.O6", "E4", "Parse defers a closure that recovers and unlocks; DataHandler and TLSDataHandler defer recover()", 3)
 	c.Rule("C08.O8", "E9", "the parser's transition relation (state case -> nextState target, read off Parse) equals the grammar's table: no state that examines a framing byte can be bypassed", 1)
 	c.Rule("C08.O9", "E7", "both CR exits of the header-value states record Transfer-Encoding / Trailer / Content-Length into the framing header set before OnHeader: a framing header with an empty value is still seen by the framing decision", 2)
+	c.Rule("C08.O10", "E9", "the chunk-size line is hex digits, optional blanks, then the end of the line or ';' and an extension: every path of the stateBodyChunkSize case, evaluated for all 256 bytes before and after the size is complete, refuses any other byte and accepts these", 1)
+	c08ChunkSizeLine(c)
+	c.Rule("C08.O11", "E4", "Content-Length is digits only (a sign is excluded before ParseInt) and every repeated value is compared with the first", 2)
+	c08ContentLengthStrict(c)
+	c.Rule("C08.O12", "E4", "an error is final: Parse's deferred closure records a non-nil result in a Parser field and the entry of Parse returns it before anything is parsed, joined or reported", 1)
+	c08ErrorsAreFinal(c)
 	c.Rule("C08.O7", "E4", "no processor callback between an error's detecting comparison and its return; stateClose short-circuits at entry", 2)
 
 	// ------------------------------------------------------------------ O1
